@@ -3,6 +3,7 @@ package main
 // Loop cutting with invariants, write-set regions and frame conditions.
 
 import (
+	"strings"
 	"fmt"
 	"go/ast"
 	"go/token"
@@ -368,6 +369,9 @@ func (fr *Frame) enterLoop(li *loopInfo, pre *State, pc Term) *State {
 		env.pre = li.pre
 		fr.curRangeIdx = li.rangeIndexAlloc()
 		for _, inv := range li.spec.Invariants {
+			if strings.Contains(inv.Src, "prev(") {
+				continue // transition invariant: checked at back edges only
+			}
 			vc.obligeClause("inv-entry", inv.Label, site+":"+labelOr(inv.Label, "inv"), pc, env, inv)
 		}
 		fr.curRangeIdx = nil
@@ -458,6 +462,9 @@ func (fr *Frame) enterLoop(li *loopInfo, pre *State, pc Term) *State {
 		env.pre = li.pre
 		fr.curRangeIdx = li.rangeIndexAlloc()
 		for _, inv := range li.spec.Invariants {
+			if strings.Contains(inv.Src, "prev(") {
+				continue
+			}
 			vc.assumeClause(pc, env, inv)
 		}
 		fr.curRangeIdx = nil
@@ -476,6 +483,7 @@ func (fr *Frame) backEdge(li *loopInfo, st *State, guard Term) {
 	}
 	env := fr.specEnv(st, guard)
 	env.pre = li.pre
+	env.prev = li.hdr
 	fr.curRangeIdx = li.rangeIndexAlloc()
 	for _, inv := range li.spec.Invariants {
 		vc.obligeClause("inv-step", inv.Label, site+":"+labelOr(inv.Label, "inv"), guard, env, inv)
@@ -526,6 +534,7 @@ type region struct {
 	isElem   bool
 	global   bool
 	ghostAll bool // the whole ghost map
+	sort     Sort // sort of the heap, when the region's type is known
 }
 
 // evalRegions turns a modifies list into heap regions, evaluated in env's
@@ -564,7 +573,11 @@ func (vc *VC) evalRegions(env *Env, locs []Expr) ([]region, error) {
 			if err != nil {
 				return nil, err
 			}
-			out = append(out, region{heap: hname, ref: ref})
+			fsort := Sort("")
+			if fv, err := env.fieldOf(xv, x.Name); err == nil && fv.Typ != nil {
+				fsort = arraySort(SInt, vc.sortOf(fv.Typ))
+			}
+			out = append(out, region{heap: hname, ref: ref, sort: fsort})
 		case *ESlice:
 			xv, err := env.eval(x.X)
 			if err != nil {
@@ -575,7 +588,7 @@ func (vc *VC) evalRegions(env *Env, locs []Expr) ([]region, error) {
 			}
 			switch u := xv.Typ.Underlying().(type) {
 			case *types.Slice:
-				r := region{heap: elemHeapName(u.Elem()), ref: sBase(xv.T), isElem: true, whole: x.Lo == nil}
+				r := region{heap: elemHeapName(u.Elem()), ref: sBase(xv.T), isElem: true, whole: x.Lo == nil, sort: arraySort(SInt, arraySort(SInt, vc.sortOf(u.Elem())))}
 				if x.Lo != nil {
 					lo, err := env.eval(x.Lo)
 					if err != nil {
@@ -680,6 +693,9 @@ func (vc *VC) havocRegions(st, pre *State, regs []region, pc Term) {
 }
 
 func (vc *VC) guessHeapSort(r region) Sort {
+	if r.sort != "" {
+		return r.sort
+	}
 	return arraySort(SInt, SInt)
 }
 
